@@ -114,6 +114,7 @@ package db
 //@   loop 0: invariant ldb.flushed == old(ldb.flushed) && ghost(list_inits) == old(ghost(list_inits))
 //@   loop 1: invariant ldb.flushed == old(ldb.flushed) && ghost(list_inits) == old(ghost(list_inits))
 //@   loop 2: invariant ldb.flushed == old(ldb.flushed) && ghost(list_inits) == old(ghost(list_inits))
+//@   loop 2: step bk.data == nil
 //@   loop 3: invariant ldb.flushed == old(ldb.flushed) && ghost(list_inits) == old(ghost(list_inits))
 
 // hashers (C20): Hash is a function of the hasher and the bytes
